@@ -783,6 +783,8 @@ class MindsDBParser(Parser):
         nullable = True
         if hasattr(p, 'NOT'):
             nullable = False
+        if not isinstance(p.table_column, TableColumn):
+            raise ParsingException('NULL / NOT NULL can be applied to a column only')
         p.table_column.nullable = nullable
         return p.table_column
 
